@@ -40,7 +40,7 @@ theorem nth_corr (a v : List ℂ) (h : a.length = v.length) {m : ℕ} (hm : m < 
       sum_ite_eq (range a.length) (v.length - 1 - (m - j)) (fun i => nth a j * conj (nth v i)),
       if_pos (by rw [mem_range]; omega)]
     simp
-  · rw [if_neg hc]
+  · rw [if_neg hc, c_zero]
     symm
     apply sum_eq_zero
     intro i hi
@@ -141,5 +141,35 @@ theorem length_crosscov_clip (x y : List ℂ) (h : x.length = y.length) (db nm :
     (crosscovCore x y false db nm).length = x.length := by
   unfold crosscovCore
   cases nm <;> cases db <;> simp [length_convFull, ← h] <;> omega
+
+theorem nth_eq_getElem (l : List ℂ) {m : ℕ} (h : m < l.length) : nth l m = l[m] := by
+  simp [nth, List.getD_eq_getElem?_getD, h]
+
+theorem ext_nth {l1 l2 : List ℂ} (hl : l1.length = l2.length)
+    (h : ∀ m, m < l1.length → nth l1 m = nth l2 m) : l1 = l2 := by
+  apply List.ext_getElem hl
+  intro i h1 h2
+  rw [← nth_eq_getElem l1 h1, ← nth_eq_getElem l2 h2]
+  exact h i h1
+
+theorem length_correlateFull (a v : List ℂ) : (correlateFull a v).length = a.length + v.length - 1 := by
+  simp [correlateFull, length_convFull]
+
+/-- `np.correlate(v, a)` is the conjugated, lag-reversed `np.correlate(a, v)` -/
+theorem correlate_reverse (a v : List ℂ) (h : a.length = v.length) :
+    (correlateFull a v).reverse.map Scalar.conj = correlateFull v a := by
+  apply ext_nth
+  · simp [length_correlateFull, h]
+  · intro m hm
+    have hm' : m < 2 * a.length - 1 := by
+      simp [length_correlateFull, ← h] at hm; omega
+    have hr : m < (correlateFull a v).reverse.length := by simpa using hm
+    rw [nth_map _ hr, nth_reverse (by simpa using hr), length_correlateFull, ← h]
+    unfold correlateFull
+    rw [nth_corr v a h.symm (by rw [← h]; exact hm'), nth_corr a v h (by omega), ← h, c_conj]
+    have := D_reverse a.length (nth a) (nth v) (m := a.length + a.length - 1 - 1 - m) (by omega)
+    rw [← this]
+    congr 1
+    omega
 
 end Nitime.C20
